@@ -41,8 +41,8 @@ STEP_UWS = [
     (r'packet_builder', 8),
     (r'6cursor', 8),
     (r'mqtt_string|mqtt_binary|arc_payload', 8),
-    (r'drop_glue', 8),                   # slot arrays of the container models
-    (r'verif_model', 8),                 # container / event-list models: capacity + 1
+    (r'drop_glue', 10),                  # slot arrays of the container models (8 slots + 1)
+    (r'verif_model', 10),                # container / event-list models: capacity + 1
     (r'verif_harness', 10),              # harness-side loops (monitor, count, reference models)
     # last (overrides the rules above): any loop over a list of properties - at most 2 properties in any harness,
     # phantom iterations (27-way switch each) are cut
